@@ -6,4 +6,5 @@ INVARIANT InvRoundTrip
 INVARIANT InvColumns
 INVARIANT InvFraming
 INVARIANT InvAcceptance
+INVARIANT InvCat
 CHECK_DEADLOCK FALSE
